@@ -170,6 +170,16 @@ Helper objects (`dissolve_local_objects`, applied to the functions of the module
     the index group on every use is the group again).  An accessor method (no parameter but the receiver, body one
     `return E` without scopes of its own, reading besides the receiver only names the caller never binds) is E at the
     place of its call, also inside a comprehension of the caller.
+
+Generators consumed on the spot (`open_consumed_generators`, applied after the helper objects): `T = list(G(args))` /
+    `tuple(...)` / `sorted(G(args), ...)` with G a generator function of the module made of `yield v` statements only (no
+    value taken from a yield, no `yield from`, no `return`, no nested definitions) is the body of G run at that place -
+    parameters bound to the arguments, an empty list, `yield v` as an append to it - followed by the statement on that
+    list: a writer whose loop over the files / parts moved into a generator of entries is the loop again, and R2 / R3
+    decide it as before.  Any other use of a generator (consumed lazily, passed on) is left alone.
+    An undecided R2 does not end the run before R3 has looked at the merged-index builder: a builder that walks its
+    inputs in another order than the one given has no table R2 could compare with, and R3's violation is the verdict;
+    without one the undecided R2 stands.
 """
 
 from __future__ import annotations
@@ -3628,6 +3638,177 @@ def rule_call_local_state(ctx, m):
                    True, 'no container made in the class body is grown in place on the way into the index', line=ci.node.lineno)
 
 
+# ---------------------------------------------------------------------------
+# generator helpers consumed on the spot
+# ---------------------------------------------------------------------------
+
+def _own_scope(fn):
+    """nodes of fn's own scope (nested functions / lambdas / classes not entered; comprehensions are)"""
+    todo = list(fn.body)
+    while todo:
+        n = todo.pop()
+        yield n
+        if isinstance(n, (ast.FunctionDef, ast.AsyncFunctionDef, ast.ClassDef, ast.Lambda)):
+            continue
+        todo.extend(ast.iter_child_nodes(n))
+
+
+def _plain_generator(fn) -> bool:
+    """a generator whose run, when it is consumed to the end at once, is its body with every `yield v` standing for
+    'v is the next element': only `yield v` statements (no value taken from a yield, no `yield from`), no `return`,
+    no scope declarations, no nested definitions"""
+    if not isinstance(fn, ast.FunctionDef):
+        return False
+    ys = 0
+    for n in ast.walk(fn):
+        if n is not fn and isinstance(n, (ast.FunctionDef, ast.AsyncFunctionDef, ast.ClassDef)):
+            return False
+    for n in _own_scope(fn):
+        if isinstance(n, (ast.Return, ast.YieldFrom, ast.Global, ast.Nonlocal, ast.Await)):
+            return False
+        if isinstance(n, ast.Yield):
+            p = getattr(n, '_parent', None)
+            if not (isinstance(p, ast.Expr) and p.value is n):
+                return False
+            ys += 1
+    # a yield inside a lambda / comprehension of the body would be another generator
+    if sum(isinstance(n, ast.Yield) for n in ast.walk(fn)) != ys:
+        return False
+    return ys > 0
+
+
+def open_consumed_generators(prog, m, fi) -> list[str]:
+    """`T = list(G(args))` / `tuple(...)` / `sorted(G(args), ...)` with G a plain generator function of the module
+    (`_plain_generator`) is the loop of G run at that place, collecting what it yields: the parameters bound to the
+    arguments (in order), an empty list, the body of G with `yield v` as `<list>.append(v)`, then the statement on the
+    list.  The generator is consumed to the end before anything else of the statement happens and nothing else can
+    see it, so the function computes the same thing; locals of G that the caller also uses are renamed.  The function
+    node is rewritten in place (the rules then read a writer whose loop was moved into a generator as the loop again).
+    Nothing is done for any other use of a generator (consumed lazily, passed on, looped over with a body of its own).
+    -> names of the generators opened"""
+    import copy
+    done = []
+    for _round in range(4):
+        fn = fi.node
+        site = None
+        for st in ast.walk(fn):
+            if not isinstance(st, ast.Assign) or len(st.targets) != 1 or not isinstance(st.targets[0], ast.Name):
+                continue
+            v = st.value
+            if not (isinstance(v, ast.Call) and isinstance(v.func, ast.Name) and v.func.id in ('list', 'tuple', 'sorted')
+                    and len(v.args) == 1 and isinstance(v.args[0], ast.Call)
+                    and all(k.arg is not None and isinstance(k.value, (ast.Lambda, ast.Constant)) for k in v.keywords)):
+                continue
+            if v.func.id != 'sorted' and v.keywords:
+                continue
+            scope = next((a for a in ancestors(st) if isinstance(a, (ast.FunctionDef, ast.AsyncFunctionDef, ast.Lambda, ast.ClassDef))),
+                         None)
+            if scope is not fn:
+                continue
+            c = v.args[0]
+            callee = resolve_call(prog, fi, c)
+            if callee is None or callee.module is not m or callee.node is fn or not _plain_generator(callee.node):
+                continue
+            decos = {norm(d) for d in callee.node.decorator_list}
+            if decos - {'staticmethod'}:
+                continue
+            env = _bind_params(callee, c, Ref(c, fi))
+            if env is None:
+                continue
+            a = callee.node.args
+            names = [x.arg for x in a.posonlyargs + a.args]
+            if callee.cls is not None and 'staticmethod' not in decos:
+                # a method: the receiver must be the caller's own `self`
+                if not (names and fi.params and names[0] == fi.params[0] and fi.cls is not None
+                        and 'staticmethod' not in {norm(d) for d in fn.decorator_list}
+                        and isinstance(c.func, ast.Attribute) and isinstance(c.func.value, ast.Name)
+                        and c.func.value.id == names[0] and names[0] not in env):
+                    continue
+                recv, names = names[0], names[1:]
+            else:
+                recv = None
+            # defaults of the parameters that were not given
+            pos = a.posonlyargs + a.args
+            dflt = {x.arg: d for x, d in zip(pos[len(pos) - len(a.defaults):], a.defaults)}
+            dflt.update({x.arg: d for x, d in zip(a.kwonlyargs, a.kw_defaults) if d is not None})
+            binds, ok = [], True
+            for p_ in names + [x.arg for x in a.kwonlyargs]:
+                if p_ in env:
+                    binds.append((p_, env[p_].e))
+                elif p_ in dflt and isinstance(dflt[p_], ast.Constant):
+                    binds.append((p_, dflt[p_]))
+                else:
+                    ok = False
+            # arguments are evaluated in the order written: keep it (positional first, then keywords, as in the call)
+            order = [id(x) for x in list(c.args) + [k.value for k in c.keywords]]
+            binds.sort(key=lambda b: order.index(id(b[1])) if id(b[1]) in order else len(order))
+            if not ok or (recv is not None and any(isinstance(t, ast.Name) and t.id == recv for t, _, _ in stores_to(callee.node))):
+                continue
+            site = (st, v, c, callee, binds, recv)
+            break
+        if site is None:
+            break
+        st, v, c, callee, binds, recv = site
+        parent = getattr(st, '_parent', None)
+        block = next((b for f_ in ('body', 'orelse', 'finalbody') for b in [getattr(parent, f_, None)]
+                      if isinstance(b, list) and any(x is st for x in b)), None)
+        if block is None:
+            break
+        used = {x.id for x in ast.walk(fn) if isinstance(x, ast.Name)} | {x.arg for x in ast.walk(fn) if isinstance(x, ast.arg)}
+        body = copy.deepcopy(callee.node.body)
+        if body and isinstance(body[0], ast.Expr) and isinstance(body[0].value, ast.Constant) and isinstance(body[0].value.value, str):
+            body = body[1:]
+        holder = ast.Module(body=body, type_ignores=[])
+        own = {x.id for x in ast.walk(holder) if isinstance(x, ast.Name) and isinstance(x.ctx, (ast.Store, ast.Del))}
+        own |= {p_ for p_, _ in binds}
+        ren = {}
+        for n_ in sorted(own & used):
+            k = 2
+            while f'{n_}{k}' in used or f'{n_}{k}' in own:
+                k += 1
+            ren[n_] = f'{n_}{k}'
+        acc = 'collected'
+        k = 2
+        while acc in used or acc in own or acc in ren.values():
+            acc, k = f'collected{k}', k + 1
+        for x in ast.walk(holder):
+            if isinstance(x, ast.Name) and x.id in ren:
+                x.id = ren[x.id]
+        new = []
+        for p_, e in binds:
+            new.append(ast.copy_location(ast.Assign(targets=[ast.copy_location(ast.Name(id=ren.get(p_, p_), ctx=ast.Store()), c)],
+                                                    value=e), st))
+        new.append(ast.copy_location(ast.Assign(targets=[ast.copy_location(ast.Name(id=acc, ctx=ast.Store()), c)],
+                                                value=ast.copy_location(ast.List(elts=[], ctx=ast.Load()), c)), st))
+
+        class _Y(ast.NodeTransformer):
+            def visit_Expr(self, node):
+                if isinstance(node.value, ast.Yield):
+                    y = node.value
+                    val = y.value if y.value is not None else ast.copy_location(ast.Constant(value=None), y)
+                    call = ast.copy_location(ast.Call(func=ast.copy_location(ast.Attribute(
+                        value=ast.copy_location(ast.Name(id=acc, ctx=ast.Load()), y), attr='append', ctx=ast.Load()), y),
+                        args=[val], keywords=[]), y)
+                    return ast.copy_location(ast.Expr(value=call), node)
+                return self.generic_visit(node)
+        holder = _Y().visit(holder)
+        new += holder.body
+        got = ast.copy_location(ast.Name(id=acc, ctx=ast.Load()), c)
+        if v.func.id == 'list':
+            st.value = got
+        else:
+            v.args[0] = got
+        i = next(j for j, x in enumerate(block) if x is st)
+        block[i:i] = new
+        ast.fix_missing_locations(fn)
+        for n in ast.walk(fn):
+            for ch in ast.iter_child_nodes(n):
+                if not isinstance(ch, (ast.expr_context, ast.operator, ast.unaryop, ast.cmpop, ast.boolop)):
+                    ch._parent = n
+        done.append(callee.name)
+    return done
+
+
 def run(ctx):
     m = ctx.prog.module(STORE)
     rule_call_local_state(ctx, m)
@@ -3635,15 +3816,37 @@ def run(ctx):
     for fi in list(m.functions.values()):
         if fi.module is m:
             dissolve_local_objects(ctx.prog, m, fi)
+    # a writer whose loop moved into a generator that it consumes on the spot is that loop again
+    for fi in list(m.functions.values()):
+        if fi.module is m:
+            open_consumed_generators(ctx.prog, m, fi)
     rule_stale(ctx, m)
     rule_fresh(ctx, m)
     rule_table_knowledge(ctx, m)
-    rule_sorted(ctx, m)
+    # R2 decides the writers by interpretation and, failing that, by tracing values; a builder that walks its inputs in
+    # another order than the one given is decided by neither (there is no table to compare with) - that is R3's
+    # statement.  So an undecided R2 does not end the run before R3 has looked at the same builder: it stands (exit 2)
+    # unless R3 establishes a violation, which is then the verdict.
+    undecided_r2 = None
+    try:
+        rule_sorted(ctx, m)
+    except Exception as ex:
+        if type(ex).__name__ != 'AnalysisError' or 'UNDECIDED rule=C08-R2' not in str(ex):
+            raise
+        undecided_r2 = ex
     # R3: the merged index and the metadata agree on the order of the parts (provenance rules shared with C09)
     from .c09 import merge_metadata, rule_index_walk, rule_merged_index
-    merge_metadata(ctx, ctx.prog, m, 'C08-R3')
-    rule_index_walk(ctx, ctx.prog, m, 'C08-R3')
-    rule_merged_index(ctx, ctx.prog, m, 'C08-R3')
+    n0 = sum(1 for o in ctx.obligations if not o.ok)
+    try:
+        merge_metadata(ctx, ctx.prog, m, 'C08-R3')
+        rule_index_walk(ctx, ctx.prog, m, 'C08-R3')
+        rule_merged_index(ctx, ctx.prog, m, 'C08-R3')
+    except Exception:
+        if undecided_r2 is not None and sum(1 for o in ctx.obligations if not o.ok) == n0:
+            raise undecided_r2
+        raise
+    if undecided_r2 is not None:
+        raise undecided_r2
     rule_all_or_none(ctx, m)
     rule_linked(ctx, m)
     ctx.note('wrong-trajectory reads in append sessions caused by a stale size table are reported under C07-R1')
